@@ -24,7 +24,7 @@ func vTM(static bool) *TimeoutManager {
 	} else {
 		m = NewTimeOutManager(nil)
 	}
-	vAdvance(time.Duration(vI64("t_boot")))
+	vAdv("t_boot")
 	if !static {
 		rt := vI64("resend_timeout")
 		vAssume(rt >= int64(time.Second) && rt <= vMaxDur)
@@ -48,11 +48,11 @@ func vTM(static bool) *TimeoutManager {
 	if vBool("boosted_before") {
 		m.resendBooster.lastBoost = time.Now()
 	}
-	vAdvance(time.Duration(vI64("t_a")))
+	vAdv("t_a")
 	if vBool("syn_pending") {
 		m.latestSentSYNTime = time.Now()
 	}
-	vAdvance(time.Duration(vI64("t_b")))
+	vAdv("t_b")
 	if vBool("has_sent") {
 		m.sentTimes[vU8("sent_seq")] = time.Now()
 	}
@@ -60,6 +60,13 @@ func vTM(static bool) *TimeoutManager {
 	vAssume(d <= vMaxDur)
 	vAdvance(time.Duration(d))
 	return m
+}
+
+// vAdv advances the symbolic clock by an arbitrary duration in [0, vMaxDur].
+func vAdv(name string) {
+	d := vI64(name)
+	vAssume(d >= 0 && d <= vMaxDur)
+	vAdvance(time.Duration(d))
 }
 
 func vMsg() Message {
@@ -149,7 +156,7 @@ func VH_C20_NoSampleAfterResend() {
 	seq := vU8("seq")
 	if vBool("syn_case") {
 		m.Sent(&PacketSYN{N: 20}, true)
-		vAdvance(time.Duration(vI64("t_d")))
+		vAdv("t_d")
 		vReach("syn-resent")
 		if vBool("synack") {
 			m.Received(&PacketSYNACK{})
@@ -158,7 +165,7 @@ func VH_C20_NoSampleAfterResend() {
 		}
 	} else {
 		m.Sent(&PacketData{Seq: seq}, true)
-		vAdvance(time.Duration(vI64("t_d")))
+		vAdv("t_d")
 		vReach("data-resent")
 		m.Received(&PacketACK{Seq: seq})
 	}
@@ -177,7 +184,7 @@ func VH_C20_Static() {
 		} else {
 			m.Received(msg)
 		}
-		vAdvance(time.Duration(vI64("t_e")))
+		vAdv("t_e")
 	}
 	vReach("static")
 	vAssert(m.GetResendTimeout() == t0, "static resend timeout changed by traffic")
